@@ -4,7 +4,6 @@ import (
 	"fmt"
 	"math/rand"
 	"sort"
-	"strings"
 	"time"
 
 	"verif/spec"
@@ -367,10 +366,11 @@ func routeJudge(prop string) func(c spec.Case, evs []spec.Event, d *Death) CaseR
 			ss = append(ss, s)
 		}
 		sort.Strings(ss)
-		res.Counters["max_concurrently_pending"] = 0
+		if end.MaxPend >= 8 {
+			res.Counters["rounds_with_8_or_more_ids_pending_at_once"]++
+		}
 		res.Class = fmt.Sprintf("%s ids=%s maxpend=%s shapes=%d disp=%d proc=%s tls=%s", p.Kind, sizeBucket(len(p.Items)), sizeBucket(end.MaxPend), len(ss), p.DispG, p.Proc, p.TLS)
 		res.Sample = map[string]any{"kind": p.Kind, "ids": len(p.Items), "max_concurrently_pending": end.MaxPend, "shapes": ss, "dispense_goroutines": p.DispG, "first_items": p.Items[:min(3, len(p.Items))]}
-		res.Counters["hook:"+strings.Join([]string{"any"}, "")] = 0
 		return res
 	}
 }
